@@ -16,8 +16,13 @@ def outcome(o):
     return C("Ok") if o == "Ok" else C("Raise", C(o))
 
 
-def op_term(op, ob):
+def op_term(op, ob, before):
+    """`before`: contents before the step (needed when the receiver itself is the operand)."""
     k = op[0]
+
+    def arglist(l):
+        return list(before) if l == "self" else list(l)
+
     if k in ("Add", "Discard", "Remove"):
         return C(k, op[1])
     if k == "Pop":
@@ -25,11 +30,13 @@ def op_term(op, ob):
     if k == "Clear":
         return C("Clear")
     if k in ("Update", "DiffUpdate", "InterUpdate"):
-        return C(k, [list(l) for l in op[1]])
+        return C(k, [arglist(l) for l in op[1]])
     if k in ("Ior", "Iand", "Isub", "Ixor"):
-        return C(k, C("ASet" if op[1] in ("set", "frozenset") else "AList", list(op[2])))
+        if op[1] == "self":
+            return C(k, C("ASet", list(before)))
+        return C(k, C("ASet" if op[1] in ("set", "frozenset", "traitset") else "AList", list(op[2])))
     if k == "SymDiffUpdate":
-        return C(k, list(op[1]))
+        return C(k, arglist(op[1]))
     if k == "Copy":
         return C("Copy", C({"copy": "CopyCopy", "deep": "CopyDeep", "pickle": "CopyPickle"}[op[1]]))
     raise ValueError(op)
@@ -37,8 +44,11 @@ def op_term(op, ob):
 
 def to_term(case, obs):
     h = []
+    before = list(case["init"])
     for op, ob in zip(case["ops"], obs):
-        h.append((op_term(op, ob),
+        term = op_term(op, ob, before)
+        before = list(ob["after"])
+        h.append((term,
                   C("mkObs", outcome(ob["out"]), list(ob["after"]), [(e[0], e[1]) for e in ob["events"]],
                     opt(ob["ret"]), opt(ob["cv"]),
                     opt(None if ob.get("oev") is None else [(e[0], e[1]) for e in ob["oev"]]))))
@@ -86,11 +96,12 @@ def gen_case(rnd, ctx, maxlen):
         elif k in ("Pop", "Clear"):
             op = [k]
         elif k in ("Update", "DiffUpdate", "InterUpdate"):
-            op = [k, [items() for _ in range(rnd.randint(0 if k != "InterUpdate" else 1, 3))]]
+            op = [k, [("self" if rnd.random() < 0.08 else items())
+                      for _ in range(rnd.randint(0 if k != "InterUpdate" else 1, 3))]]
         elif k in ("Ior", "Iand", "Isub", "Ixor"):
-            op = [k, rnd.choice(["set", "set", "set", "frozenset", "list"]), items()]
+            op = [k, rnd.choice(["set", "set", "set", "frozenset", "list", "traitset", "traitset", "self"]), items()]
         elif k == "SymDiffUpdate":
-            op = [k, items()]
+            op = [k, "self" if rnd.random() < 0.1 else items()]
         else:
             # a TraitSetObject taken alone is copied by deepcopy only: its __setstate__ (copy.copy, pickle)
             # deliberately disconnects it from its trait (trait = None), deepcopy keeps the trait
@@ -121,6 +132,14 @@ def corpus():
     for vk in ("VAll", "VInt", "VCInt"):
         cs.append(dict(vk=vk, target="obj", init=[1, 2],
                        ops=[["Copy", "deep"], ["Add", 103], ["Add", 200], ["Add", 4], ["Ixor", "set", [1, 104, 5]]]))
+    for vk in ("VAll", "VInt", "VCInt"):
+        for target in ("plain", "obj"):
+            cs.append(dict(vk=vk, target=target, init=[1, 2],
+                           ops=[["Isub", "self", []], ["Add", 3], ["Ixor", "self", []], ["Add", 4], ["Iand", "self", []],
+                                ["Ior", "self", []], ["DiffUpdate", ["self"]], ["Add", 5], ["InterUpdate", ["self", [5, 1]]],
+                                ["SymDiffUpdate", "self"], ["Add", 1], ["Update", ["self", [2]]],
+                                ["Ior", "traitset", [101, 3]], ["Ior", "traitset", [200]], ["Ixor", "traitset", [104, 1]],
+                                ["Isub", "traitset", [1]], ["Iand", "traitset", [2, 3]]]))
     cs.append(dict(vk="VCInt", target="plain", init=[1, 2, 3],
                    ops=[["Ixor", "set", [101, 4]], ["SymDiffUpdate", [102, 105, 200]], ["SymDiffUpdate", [103, 3]]]))
     return cs
